@@ -33,6 +33,8 @@ def runSweep (payload : String) : String × String × String :=
           else if i + 1 < n && o.startsWith "SetReadOnly" && i + 2 != n && i + 1 != n then o else o)
       else outs
     let outs := if mode == "queries" && recv.startsWith "K" then outs ++ ["tamper D0 A0"] else outs
+    -- nestedro: what other instances do WITH the read-only Stack (collect it, compare with it, render it) leaves it as it was
+    let outs := if mode == "nestedro" then outs ++ ["collect D0"] else outs
     let line := " ; ".intercalate outs
     -- methods classified from the facts only: their zero result is not known to the table
     let unknown := calls.filterMap (fun call =>
